@@ -28,10 +28,12 @@ class NonFinite(ZeroDivisionError):
 
 
 R = z3.RealSort()
-_MUL = z3.Function("mul", R, R, R)
-_DIV = z3.Function("div", R, R, R)
+_MUL = z3.Function("uf_mul", R, R, R)
+_DIV = z3.Function("uf_div", R, R, R)
 
 TIMEOUT_MS = 60_000
+import os as _os
+XCHECK_EVERY = int(_os.environ.get("VERIF_XCHECK_EVERY", "0") or 0)
 CUR = None  # the active Explorer (symbolic mode) or None (concrete mode)
 
 
@@ -87,6 +89,33 @@ def _vars(t, _cache={}):
         else:
             stack.extend(e.children())
     return out
+
+
+def cvc5_verdict(assertions, tlimit_ms=20000):
+    """'sat' | 'unsat' | 'unknown' from the cvc5 wheel on the SMT-LIB export of the assertions (second solver)."""
+    try:
+        import cvc5
+
+        s = z3.Solver()
+        s.add(*assertions)
+        smt = "(set-logic ALL)\n" + s.to_smt2()
+        tm = cvc5.TermManager() if hasattr(cvc5, "TermManager") else None
+        slv = cvc5.Solver(tm) if tm is not None else cvc5.Solver()
+        slv.setOption("tlimit-per", str(tlimit_ms))
+        parser = cvc5.InputParser(slv)
+        parser.setStringInput(cvc5.InputLanguage.SMT_LIB_2_6, smt, "q")
+        sm = parser.getSymbolManager()
+        res = "unknown"
+        while True:
+            cmd = parser.nextCommand()
+            if cmd.isNull():
+                break
+            out = str(cmd.invoke(slv, sm)).strip()
+            if out in ("sat", "unsat"):
+                res = out
+        return res
+    except Exception:  # noqa: BLE001 - best effort second opinion
+        return "unknown"
 
 
 def zabs(t):
@@ -322,6 +351,9 @@ class Stats:
         self.refined_sat = 0
         self.refined_unknown = 0
         self.retried = 0
+        self.xcheck_agree = 0
+        self.xcheck_disagree = 0
+        self.xcheck_unknown = 0
         self.sliced_unsat = 0
         self.cvc5_unsat = 0
         self.solver_s = 0.0
@@ -515,6 +547,7 @@ class Explorer:
         r, m = self._check(z3.Not(cond), kind="prove")
         if r == z3.unsat:
             self.stats.unsat += 1
+            self._xcheck(list(self.solver.assertions()) + [z3.Not(cond)])
             return "unsat", None
         if self.uf:
             return self._refine(z3.Not(cond))
@@ -530,6 +563,23 @@ class Explorer:
             self.stats.retried += 1
         self.stats.sat += 1
         return "sat", m
+
+    def _xcheck(self, assertions):
+        """Two solvers: every N-th 'unsat' is re-posed to cvc5; a 'sat' from cvc5 is a disagreement (inconclusive)."""
+        if not XCHECK_EVERY:
+            return
+        self._xn = getattr(self, "_xn", 0) + 1
+        if self._xn % XCHECK_EVERY:
+            return
+        t = time.time()
+        v = cvc5_verdict(assertions)
+        self.stats.solver_s += time.time() - t
+        if v == "unsat":
+            self.stats.xcheck_agree += 1
+        elif v == "sat":
+            self.stats.xcheck_disagree += 1
+        else:
+            self.stats.xcheck_unknown += 1
 
     def _ladder(self, assertions):
         """Retry an ``unknown`` query: fresh solvers with other seeds/tactics, then cvc5 (unsat only)."""
@@ -551,32 +601,9 @@ class Explorer:
                     return r, s.model()
                 if r == z3.unsat:
                     return r, None
-            try:
-                import cvc5
-                from cvc5 import Kind  # noqa: F401
-
-                s = z3.Solver()
-                s.add(*assertions)
-                smt = "(set-logic QF_NRA)\n" + s.to_smt2()
-                tm = cvc5.TermManager() if hasattr(cvc5, "TermManager") else None
-                slv = cvc5.Solver(tm) if tm is not None else cvc5.Solver()
-                slv.setOption("tlimit-per", str(TIMEOUT_MS))
-                parser = cvc5.InputParser(slv)
-                parser.setStringInput(cvc5.InputLanguage.SMT_LIB_2_6, smt, "q")
-                sm = parser.getSymbolManager()
-                res = None
-                while True:
-                    cmd = parser.nextCommand()
-                    if cmd.isNull():
-                        break
-                    out = cmd.invoke(slv, sm)
-                    if "unsat" in str(out):
-                        res = z3.unsat
-                if res == z3.unsat:
-                    self.stats.cvc5_unsat += 1
-                    return z3.unsat, None
-            except Exception:  # noqa: BLE001 - cvc5 is a best-effort extra rung
-                pass
+            if cvc5_verdict(assertions) == "unsat":
+                self.stats.cvc5_unsat += 1
+                return z3.unsat, None
             return z3.unknown, None
         finally:
             self.stats.solver_s += time.time() - t
